@@ -89,6 +89,8 @@ func writeCell(p unsafe.Pointer, v int64) { *(*int64)(p) = v }
 type mapSetter interface {
 	Set(e ecs.Entity, v int64)
 	Get(e ecs.Entity) unsafe.Pointer
+	// Map[T].NewBatchFn (cb may be nil: the callback-free path)
+	NewBatchFn(count int, cb func(e ecs.Entity, p unsafe.Pointer), target ...ecs.Entity)
 }
 
 type ms[T any] struct{ m *ecs.Map[T] }
@@ -101,6 +103,13 @@ func (s ms[T]) Set(e ecs.Entity, v int64) {
 	s.m.Set(e, &t)
 }
 func (s ms[T]) Get(e ecs.Entity) unsafe.Pointer { return unsafe.Pointer(s.m.Get(e)) }
+func (s ms[T]) NewBatchFn(count int, cb func(ecs.Entity, unsafe.Pointer), target ...ecs.Entity) {
+	if cb == nil {
+		s.m.NewBatchFn(count, nil, target...)
+		return
+	}
+	s.m.NewBatchFn(count, func(e ecs.Entity, a *T) { cb(e, unsafe.Pointer(a)) }, target...)
+}
 
 func newMapSetter(w *ecs.World, code int) mapSetter {
 	switch code {
@@ -130,6 +139,7 @@ func newMapSetter(w *ecs.World, code int) mapSetter {
 
 // Typed mappers for the batch operations, which only exist in the generic API.
 type batchMapper interface {
+	// cb may be nil (the callback-free path)
 	NewBatchFn(count int, cb func(e ecs.Entity, ptrs []unsafe.Pointer), rels []ecs.Relation)
 	AddBatchFn(b ecs.Batch, cb func(e ecs.Entity, ptrs []unsafe.Pointer), rels []ecs.Relation)
 	RemoveBatch(b ecs.Batch, cb func(e ecs.Entity))
@@ -139,6 +149,10 @@ type batchMapper interface {
 type bm1[T1 any] struct{ m *ecs.Map1[T1] }
 
 func (x bm1[T1]) NewBatchFn(count int, cb func(ecs.Entity, []unsafe.Pointer), rels []ecs.Relation) {
+	if cb == nil {
+		x.m.NewBatchFn(count, nil, rels...)
+		return
+	}
 	x.m.NewBatchFn(count, func(e ecs.Entity, a *T1) { cb(e, []unsafe.Pointer{unsafe.Pointer(a)}) }, rels...)
 }
 func (x bm1[T1]) AddBatchFn(b ecs.Batch, cb func(ecs.Entity, []unsafe.Pointer), rels []ecs.Relation) {
@@ -152,6 +166,10 @@ func (x bm1[T1]) SetRelationsBatch(b ecs.Batch, cb func(ecs.Entity), rels []ecs.
 type bm2[T1, T2 any] struct{ m *ecs.Map2[T1, T2] }
 
 func (x bm2[T1, T2]) NewBatchFn(count int, cb func(ecs.Entity, []unsafe.Pointer), rels []ecs.Relation) {
+	if cb == nil {
+		x.m.NewBatchFn(count, nil, rels...)
+		return
+	}
 	x.m.NewBatchFn(count, func(e ecs.Entity, a *T1, b *T2) {
 		cb(e, []unsafe.Pointer{unsafe.Pointer(a), unsafe.Pointer(b)})
 	}, rels...)
@@ -169,6 +187,10 @@ func (x bm2[T1, T2]) SetRelationsBatch(b ecs.Batch, cb func(ecs.Entity), rels []
 type bm3[T1, T2, T3 any] struct{ m *ecs.Map3[T1, T2, T3] }
 
 func (x bm3[T1, T2, T3]) NewBatchFn(count int, cb func(ecs.Entity, []unsafe.Pointer), rels []ecs.Relation) {
+	if cb == nil {
+		x.m.NewBatchFn(count, nil, rels...)
+		return
+	}
 	x.m.NewBatchFn(count, func(e ecs.Entity, a *T1, b *T2, c *T3) {
 		cb(e, []unsafe.Pointer{unsafe.Pointer(a), unsafe.Pointer(b), unsafe.Pointer(c)})
 	}, rels...)
